@@ -154,3 +154,15 @@ Theorem c18_client_update_independent_of_leaders : forall (m upd : list (lshard 
   disjoint_map (map fst (client_update_l (option N) m upd)).
 Proof. exact (client_update_partition_with_leaders (option N)). Qed.
 Print Assumptions c18_client_update_independent_of_leaders.
+
+(* update holds the write lock over the whole received list: readers see the map before or after it, which is what
+   the theorems above are about.  If the lock were released after every shard of the list, readers could see a map
+   with a hole although every received list is an exact partition (round-8 seeded change; found by the forced
+   reader / writer / probes schedule of the harness). *)
+Theorem c18_stepwise_update_exposes_hole_refuted :
+  exists m upd mid h,
+    partition m /\ partition upd /\ NoDup (map sid upd) /\
+    (forall x u, In x m -> In u upd -> sid x <> sid u) /\
+    In mid (update_steps m upd) /\ h < U32 /\ route mid h = [] /\ ~ partition mid.
+Proof. exact stepwise_update_exposes_hole_refuted. Qed.
+Print Assumptions c18_stepwise_update_exposes_hole_refuted.
